@@ -1086,6 +1086,12 @@ static Error JitAllocatorImpl_shrink(JitAllocatorPrivateImpl* impl, JitAllocator
   uint32_t area_end = uint32_t(Support::bit_vector_index_of(block->_stop_bit_vector, area_start, true)) + 1;
   uint32_t area_prev_size = area_end - area_start;
   uint32_t span_prev_size = area_prev_size * pool->granularity;
+
+  // Must be checked in bytes - the conversion to area units below truncates to 32 bits.
+  if (ASMJIT_UNLIKELY(new_size > span_prev_size)) {
+    return make_error(Error::kInvalidArgument);
+  }
+
   uint32_t area_shrunk_size = pool->area_size_from_byte_size(new_size);
 
   if (ASMJIT_UNLIKELY(area_shrunk_size > area_prev_size)) {
